@@ -55,8 +55,17 @@ from numsnap import snap, snap_or_approx, INT_MAX  # noqa: E402,F401
 # ---------------------------------------------------------------------------------------
 # parsing
 
+def write_reused(text, name):
+    """the same path rewritten for every parse of the process (what a planning loop does): a result that
+    is remembered by path shows up as the previous file's content"""
+    p = scratch_dir() / name
+    with open(p, "wt", encoding="utf-8") as f:
+        f.write(text)
+    return p
+
+
 def parse_domain_text(text, **kw):
-    p = write_tmp(text)
+    p = write_reused(text, "domain.pddl")
     try:
         return DomainParser(p, **kw).parse_domain()
     finally:
@@ -64,7 +73,7 @@ def parse_domain_text(text, **kw):
 
 
 def parse_problem_text(text, domain):
-    p = write_tmp(text)
+    p = write_reused(text, "problem.pddl")
     try:
         return ProblemParser(p, domain).parse_problem()
     finally:
@@ -186,6 +195,45 @@ def project_typed_state(state):
         else:
             raise ValueError("typed item")
     return {"st": project_state_plain(plain), "types": types}
+
+
+def edit_state(rng, domain, state, atoms):
+    """change `state` in place through its public containers; returns the event fields
+    {"how": "add"|"remove"|"set", "fact": [p, args] | "f","a","v", "out": {"st": projection after}}"""
+    before = project_state(state)
+    have = [f for f in before["facts"]]
+    r = rng.random()
+    ev = {"how": None, "fact": ["", []], "f": "", "a": [], "v": [0, 1]}
+    try:
+        if r < 0.4 and have:
+            name, args = rng.choice(have)
+            for key in list(state.state_predicates):
+                state.state_predicates[key] = {g for g in state.state_predicates[key]
+                                               if not (g.name == name and list(g.grounded_objects) == list(args))}
+            ev.update({"how": "remove", "fact": [name, list(args)]})
+        elif r < 0.8:
+            missing = [a for a in atoms if a not in have]
+            if not missing:
+                return None
+            name, args = rng.choice(missing)
+            lifted = domain.predicates[name]
+            gp = GroundedPredicate(name=name, signature=dict(lifted.signature),
+                                   object_mapping=dict(zip(lifted.signature.keys(), args)))
+            state.state_predicates.setdefault(gp.lifted_untyped_representation, set()).add(gp)
+            ev.update({"how": "add", "fact": [name, list(args)]})
+        else:
+            if not before["fl"]:
+                return None
+            f, a, _, _ = rng.choice(before["fl"])
+            v = rng.choice([[0, 1], [1, 1], [-1, 1], [1, 2], [5, 2], [7, 1], [-3, 4]])
+            for fl in state.state_fluents.values():
+                if fl.name == f and list(fl.signature.keys()) == list(a):
+                    fl.set_value(v[0] / v[1])
+            ev.update({"how": "set", "f": f, "a": list(a), "v": v})
+        ev["out"] = {"st": project_state(state)}
+    except Exception as e:  # noqa: BLE001
+        ev["out"] = {"exc": exc_name(e)}
+    return ev
 
 
 def exc_name(e):
